@@ -21,19 +21,27 @@
      definition of //), C15_idiv_int_is_floor_division (on integers // is Z.div: 7//2 = 3, -7//2 = -4),
      C15_min_max_ceil_floor, C15_var_lookup.  Digit separators: C15_digit_separators (a SEPERATED_NUMBER token can be
      replaced by the NUMBER token of its value anywhere), C15_separated_number.
-   * Documents (Model/Doc.v: DFSTraversePatch._apply + ArithmeticPatch exactly as coded now: 'exclude' lists, dict update
-     order, keys evaluated only next to scalar values).  FULL STATEMENT of the property,
-         C15_apply_spec :  forall r d, arith_apply r d = arith_ideal r d
-     (arith_ideal = d with every '{{e}}' string, as value, list element or key at any depth, replaced by eval e, excluded
-     entries dropped), is FALSE of the current code:
-       C15_apply_spec_refuted : exists r d, arith_apply r d <> arith_ideal r d     (witness {"{{ 1 + 1 }}": {"a": 1}})
-       C15_apply_spec_partial : keys_ok d -> arith_apply r d = arith_ideal r d     (keys_ok: no surviving key in front of a
-                                dict/list is changed by interpretation) -- the largest true part; it covers values, list
-                                elements and keys of scalar-valued entries at any depth, also when the value is 0
-       C15_apply_as_coded     : for EVERY document, apply = the reading that leaves keys of container-valued entries alone.
-     C15_list_element_replaced / C15_value_and_key_replaced / C15_nested_value_replaced: each placement separately, for any
-     expression and any value q (q == 0 included: the repaired `patch or raw`).  C15_dict_of_distinct: with pairwise different
-     interpreted keys, building the result dict changes nothing.
+   * Documents (Model/Doc.v: DFSTraversePatch._apply exactly as coded now, generic in the patch_value/patch_dict hook `ev`
+     and the patch_key hook `evk`: 'exclude' lists, dict update order).  The FULL statement of the property is proved,
+     with NO side condition:
+         C15_apply_spec : forall r d, arith_apply r d = arith_ideal r d
+     arith_ideal r d = d with every '{{e}}' string -- as a value, a list element, the key of a scalar-valued entry or the key
+     of a dict-/list-valued entry, at any depth -- replaced by eval e; entries listed under "exclude" (and "exclude" itself)
+     are dropped without being evaluated; an error anywhere (division by zero, unbound variable, syntax, "exclude" not a
+     list) makes both sides None; the result of each dict is BUILT as a Python dict, in order (dict_of: when two interpreted
+     keys are equal, 1 == 1.0 == True included, the later value replaces the earlier one, which keeps its place).
+     That last point is the only place where "replaced" needs care, and it is part of the specification, not a hypothesis:
+         C15_apply_spec_distinct_keys : arith_plain r d = Some d' -> distinct_all d' = true -> arith_apply r d = Some d'
+     (arith_plain = the plain map without any dict building): whenever the interpreted keys of every dict of the result are
+     pairwise different, apply IS the plain "replace every expression" map.  C15_dict_of_distinct is the lemma behind it.
+     C15_apply_any_hook: for every pair of hooks apply = the same reading with evk on container-valued keys (the other
+     DFSTraversePatch subclasses keep patch_key = identity).
+     HISTORY: until /repo commit e5276b7 a '{{ }}' key in front of a dict or list was not interpreted (former finding
+     C15-container-valued-key-not-interpreted, then C15_apply_spec_refuted/_partial); the commit added the patch_key hook
+     and the full theorem replaced the pair.  Witness kept as Example witness_value (Proofs/DocP.v) and as the first
+     regression case of the harness.  Before that, bd60c26 repaired `patch or raw` (a value 0 stayed a string).
+     C15_list_element_replaced / C15_value_and_key_replaced / C15_container_key_replaced / C15_nested_value_replaced: each
+     placement separately, for any expression and any value q (q == 0 included).
    * Spec.interpret = copy, then fold the patches.  The model is purely functional: the store is a value and CANNOT be
      mutated, so C15_interpret_store_unchanged / C15_interpret_twice_same hold by construction and say nothing about Python
      object mutation.  That clause of the property is carried by the correspondence harness (every shipped Spec x shipped
@@ -222,18 +230,20 @@ Theorem C15_source_actions_denote_eval :
         Forall2 (fun (e0 : expr) (v : Q) => eval r e0 = Some v) es vs -> eval r e = pyden body vs.
 Proof. exact @source_actions_denote_eval. Qed.
 
-Theorem C15_apply_as_coded :
-  forall (r : env) (d : sdoc), arith_apply r d = arith_as_coded r d.
-Proof. exact @arith_apply_as_coded. Qed.
+Theorem C15_apply_spec :
+  forall (r : env) (d : sdoc), arith_apply r d = arith_ideal r d.
+Proof. exact @arith_apply_spec. Qed.
 
-Theorem C15_apply_spec_partial :
-  forall (r : env) (d : doc leaf),
-        keys_ok leaf leaf_eqb (ev r) exclude_key d -> arith_apply r d = arith_ideal r d.
-Proof. exact @arith_apply_partial. Qed.
+Theorem C15_apply_spec_distinct_keys :
+  forall (r : env) (d d' : sdoc),
+        arith_plain r d = Some d' -> distinct_all leaf leaf_eqb d' = true -> arith_apply r d = Some d'.
+Proof. exact @arith_apply_plain. Qed.
 
-Theorem C15_apply_spec_refuted :
-  exists (r : env) (d : sdoc), arith_apply r d <> arith_ideal r d.
-Proof. exact @arith_apply_refuted. Qed.
+Theorem C15_apply_any_hook :
+  forall (Leaf : Type) (leaf_eqb : Leaf -> Leaf -> bool) (ev evk : Leaf -> option Leaf)
+          (exclude_key : Leaf) (d : doc Leaf),
+        apply Leaf leaf_eqb ev evk exclude_key d = hooked Leaf leaf_eqb ev evk exclude_key d.
+Proof. exact @apply_hooked. Qed.
 
 Theorem C15_list_element_replaced :
   forall (r : env) (i : N) (ts : list tok) (q : Q),
@@ -249,6 +259,15 @@ Theorem C15_value_and_key_replaced :
         arith_apply r (DDict [(LStr i (Some tk), DLeaf (LStr j (Some tv)))]) =
         Some (DDict [(LNum qk, DLeaf (LNum qv))]).
 Proof. exact @value_and_key_replaced. Qed.
+
+Theorem C15_container_key_replaced :
+  forall (r : env) (i : N) (tk : list tok) (qk : Q) (j : N) (tv : list tok) (qv : Q),
+        i <> exclude_id ->
+        evalp r tk = Some qk ->
+        evalp r tv = Some qv ->
+        arith_apply r (DDict [(LStr i (Some tk), DList [DLeaf (LStr j (Some tv))])]) =
+        Some (DDict [(LNum qk, DList [DLeaf (LNum qv)])]).
+Proof. exact @container_key_replaced. Qed.
 
 Theorem C15_nested_value_replaced :
   forall (r : env) (i k j : N) (ts : list tok) (q : Q),
@@ -309,11 +328,12 @@ Print Assumptions C15_grammar_tie.
 Print Assumptions C15_optable_tie.
 Print Assumptions C15_source_grammar_roundtrip.
 Print Assumptions C15_source_actions_denote_eval.
-Print Assumptions C15_apply_as_coded.
-Print Assumptions C15_apply_spec_partial.
-Print Assumptions C15_apply_spec_refuted.
+Print Assumptions C15_apply_spec.
+Print Assumptions C15_apply_spec_distinct_keys.
+Print Assumptions C15_apply_any_hook.
 Print Assumptions C15_list_element_replaced.
 Print Assumptions C15_value_and_key_replaced.
+Print Assumptions C15_container_key_replaced.
 Print Assumptions C15_nested_value_replaced.
 Print Assumptions C15_dict_of_distinct.
 Print Assumptions C15_interpret_store_unchanged.
